@@ -153,6 +153,51 @@ func evalC05(c *Ctx, cs *Case) {
 			}
 		}
 	}
+	// --- a re-used tree: walk, walk again with other branch strings, add a node, walk again.
+	// The node facts must describe the tree and options of the CURRENT call.
+	for ri, root := range merged {
+		if ri > 2 {
+			break
+		}
+		g := BuildRoot(root)
+		walkRows := func(bi int) ([]model.Row, Outcome) {
+			rec := NewRowRec()
+			o := Guard(func() error { return gtree.WalkFromRoot(g, rec.Callback, BranchOptions(bi)...) })
+			return rec.Rows, o
+		}
+		steps := []struct {
+			bi  int
+			add bool
+		}{{0, false}, {3, false}, {0, true}, {6, false}}
+		cur := root.Clone()
+		for si, st := range steps {
+			if st.add {
+				// a new last child under the root and under the root's former last child
+				g.Add("zz_new")
+				cur.Kids = append(cur.Kids, &model.Node{Name: "zz_new"})
+				if len(cur.Kids) > 1 {
+					g.Add(cur.Kids[len(cur.Kids)-2].Name).Add("zz_deep")
+					k := cur.Kids[len(cur.Kids)-2]
+					k.Kids = append(k.Kids, &model.Node{Name: "zz_deep"})
+				}
+			}
+			rows, o := walkRows(st.bi)
+			want := model.Rows(model.Forest{cur}, BranchTuples[st.bi])
+			c.Eval(gen.HashString(fkey+"reuse"+root.Name+strconv.Itoa(ri*10+si)), true)
+			c.Count("reuse_steps", 1)
+			if o.Panic != nil || o.Err != nil || !RowsEqual(rows, want) {
+				var got, exp []string
+				for _, r := range rows {
+					got = append(got, r.Row+"|"+r.Branch+"|"+r.Path)
+				}
+				for _, r := range want {
+					exp = append(exp, r.Row+"|"+r.Branch+"|"+r.Path)
+				}
+				viol("WalkFromRoot(reused tree)", "rows.differ-from-model", "reuse", map[string]any{"step": si, "branch": st.bi, "added": st.add, "got": got, "want": exp, "err": errStr(o.Err)})
+				break
+			}
+		}
+	}
 	// --- failure / break at every visit index k (default branch strings)
 	total := merged.Size()
 	ks := make([]int, 0, total)
